@@ -289,4 +289,4 @@ def cases(draw):
 
 
 def subs(tier):
-    return [Sub("file", cases(), run_case, quick=640, thorough=12000, needs=("rel", "h5x", "shim"), shrink_budget=60)]
+    return [Sub("file", cases(), run_case, quick=1280, thorough=12000, needs=("rel", "h5x", "shim"), shrink_budget=60)]
